@@ -70,6 +70,16 @@ func (w *World) Get(addr uint64) *Account {
 	return nil
 }
 
+// GetReal finds an account by its 20-byte address.
+func (w *World) GetReal(addr common.Address) *Account {
+	for _, a := range w.Accounts {
+		if a.Address() == addr {
+			return a
+		}
+	}
+	return nil
+}
+
 func (w *World) Add(a *Account) *Account {
 	if a.Storage == nil {
 		a.Storage = map[uint64]uint64{}
